@@ -95,6 +95,20 @@ theorem no_freed_reachable {t : ObjectTree} (w : WF t) (i : Nat) (hl : live t i 
     simp only [abs, ha]
     exact w.chain_parent l (Fi t i) i hc (fun hne => ((w.localP hl).2.2.2.2.2.1 hne).1)
 
+/-- **child_lists_agree** — in a well-formed pool, parent links and child lists agree in both
+directions: `k` is in the (abstract, ordered) child list of a live object `p` exactly when `k` is a
+live object whose parent link is `p`. -/
+theorem child_lists_agree {t : ObjectTree} (w : WF t) (p : Nat) (hl : live t p = true) (k : Nat) :
+    k ∈ (abs t).kids p ↔ (live t k = true ∧ P t k = p) := by
+  obtain ⟨l, hc, ha, _⟩ := w.args_eq hl
+  have hk : (abs t).kids p = l := by simp [abs, ha]
+  rw [hk]
+  constructor
+  · exact w.chain_parent l (Fi t p) p hc (fun hne => ((w.localP hl).2.2.2.2.2.1 hne).1) k
+  · rintro ⟨hlk, hp⟩
+    obtain ⟨pos, hpos⟩ := w.order
+    exact w.child_mem hc pos hpos (pos k) k (Nat.le_refl _) hlk hp (live_ne_INV w.size_le hl)
+
 /-- **free_slots_reused_first** — `newObject` on a well-formed pool: if some slot is freed the pool
 does not grow and the returned position is a freed slot; only if no slot is freed does the pool
 grow, by exactly one, and the new position is the old length. -/
@@ -125,5 +139,68 @@ theorem free_slots_reused_first {t t' : ObjectTree} (w : WF t) (opcode info th i
     obtain ⟨rfl, rfl⟩ := h
     refine ⟨fun _ => ⟨by simp [setAt], hlt, hnl⟩, fun hall' => ?_⟩
     rw [hall' _ hlt] at hnl; cases hnl
+
+/-- **ops_preserve_WF_partial** — proved for `newObject` only.  Full statement (not proved; decided
+per run by the oracle, which checks `wfCheck` — sound by `wfCheck_sound` — on the implementation's
+pool after every operation): each of `newObject`, `append`, `appendAfter`, `detach`, `free` under
+its contract (`newPre`, `appendPre`, `appendAfterPre`, `detachPre`, `freePre` of `Spec/C13.lean`)
+returns `.ok t'` with `WF t'` and the obvious effect on `abs`.  Here: `newObject` under
+`pool.size < 2^32-1` and an opcode other than the freed marker succeeds, preserves `WF`, and changes
+nothing but one slot `i`, not live before, which now holds a live object with all five links
+`InvalidIndex` (a new detached node without arguments). -/
+theorem ops_preserve_WF_partial {t : ObjectTree} (w : WF t) (opcode info th : Nat)
+    (hpre : newPre t = true) (hop : opcode ≠ pOpIntFreedObject) :
+    ∃ t' i, t.newObject opcode info th = .ok (t', i) ∧ WF t' ∧
+      live t i = false ∧ live t' i = true ∧ (∀ x, x ≠ i → slot t' x = slot t x ∧ live t' x = live t x) ∧
+      P t' i = INV ∧ Pv t' i = INV ∧ Nx t' i = INV ∧ Fi t' i = INV ∧ La t' i = INV := by
+  obtain ⟨t', i, h, w', fr⟩ := newObject_wf w opcode info th (by simpa [newPre] using hpre) hop
+  exact ⟨t', i, h, w', fr.nlive, fr.liven, fun x hx => ⟨fr.same x hx, fr.livex x hx⟩,
+    fr.pn, fr.pvn, fr.nxn, fr.fin, fr.lan⟩
+
+/-- **history_partial** — induction over histories, for the operation proved so far: any sequence
+of `newObject` calls from a well-formed pool (in particular from the empty pool) that stays below
+`2^32-1` slots never fails and ends in a well-formed pool.  Missing: the other four operations (see
+`ops_preserve_WF_partial`). -/
+theorem history_partial (ops : List (Nat × Nat × Nat)) :
+    ∀ t : ObjectTree, WF t → t.pool.size + ops.length ≤ INV → (∀ o ∈ ops, o.1 ≠ pOpIntFreedObject) →
+      ∃ t', ops.foldlM (fun t o => (fun r => r.1) <$> t.newObject o.1 o.2.1 o.2.2) t = .ok t' ∧ WF t' := by
+  induction ops with
+  | nil => intro t w _ _; exact ⟨t, rfl, w⟩
+  | cons o ops ih =>
+    intro t w hsz hop
+    obtain ⟨t1, i, h, w1, fr⟩ := newObject_wf w o.1 o.2.1 o.2.2 (by simp at hsz; omega) (hop o (by simp))
+    have hs1 : t1.pool.size ≤ t.pool.size + 1 := by
+      have := (free_slots_reused_first w _ _ _ _ h)
+      by_cases hx : ∃ j, j < t.pool.size ∧ live t j = false
+      · have := (this.1 hx).1; omega
+      · have := (this.2 (fun j hj => by
+          cases hl : live t j with
+          | true => rfl
+          | false => exact absurd ⟨j, hj, hl⟩ hx)).1
+        omega
+    obtain ⟨t', h', w'⟩ := ih t1 w1 (by simp at hsz; omega) (fun o' ho' => hop o' (by simp [ho']))
+    refine ⟨t', ?_, w'⟩
+    simp only [List.foldlM_cons, h, Functor.map, Except.map, bind, Except.bind]
+    exact h'
+
+/-! ## non-vacuity: concrete well-formed pools, and a concrete lookup -/
+
+/-- the default scopes: root `\` with `_GPE _PR_ _SB_ _SI_ _TZ_` -/
+def exTree : ObjectTree :=
+  match NewObjectTree.CreateDefaultScopes 113 0 with
+  | .ok t => t
+  | .error _ => NewObjectTree
+
+example : WF NewObjectTree := wfCheck_sound (by decide)
+example : WF exTree ∧ live exTree 0 = true ∧ live exTree 3 = true ∧ newPre exTree = true :=
+  ⟨wfCheck_sound (by decide), by decide, by decide, by decide⟩
+/-- `_SB_` from scope `_SB_` is found in the enclosing (root) scope; `^_TZ_` goes one level up -/
+example : exTree.Find 3 (Name.ofString "_SB_").toList = .ok 3 ∧
+    exTree.Find 3 (0x5e :: (Name.ofString "_TZ_").toList) = .ok 5 ∧
+    exTree.Find 3 [0x5e, 0x5e] = .ok INV := by decide
+example : exTree.NumArgs (some 0) = .ok 5 ∧ (abs exTree).kids 0 = [1, 2, 3, 4, 5] := by decide
+/-- a pool with a freed slot: the next `newObject` reuses it -/
+example : ∃ t t' , exTree.free 4 = .ok t ∧ WF t ∧ t.newObject 1 1 0 = .ok (t', 4) ∧ t'.pool.size = 6 := by
+  refine ⟨_, _, rfl, wfCheck_sound (by decide), rfl, by decide⟩
 
 end Firefly.C13
